@@ -375,6 +375,15 @@ class Outcome2:
         effs = self.must if effs is None else effs
         return [e for e in effs if e.level is not None and not self.after(e, cond, level)]
 
+    def region_wide(self, cond, level, effs=None):
+        """effects that can happen once the decision `cond` is *known* — for a decision carried as data (refine_outcomes)
+        that is from the return of the callback on, not only from the place where the data is matched"""
+        effs = self.may if effs is None else effs
+        early = getattr(cond, 'early', None)
+        if early is None:
+            return self.region(cond, level, effs)
+        return [e for e in effs if self.after(e, cond, level) or self.after(e, early[0], early[1])]
+
 
 def outcomes2(E, fn, through, mapping=None, chain=(), stack=(), frame=(), entry=None):
     """success outcomes of fn (see module doc).  `through(g)`: private helpers to split on"""
@@ -916,6 +925,49 @@ class Effects2(Effects):
         have = {eff_key(e) for e in by_cases}
         return by_cases if all(eff_key(e) in have for e in out) else out
 
+    # -- collections built in place (see _BUILT_DOC) ------------------------------------------------------------------
+    def _unrollable(self, fn, c):
+        r = Effects._unrollable(self, fn, c)
+        if r is not None:
+            return r
+        best = None
+        for L in self.loops(fn):
+            if c.bb in L.body and c.bb != L.header and L.collection is not None:
+                if best is None or len(L.body) < len(best.body):
+                    best = L
+        if best is not None and built_alts(self, fn, best.collection, c.bb, best) is not None:
+            return best.collection
+        return None
+
+    def _loop_of(self, fn, c, forall):
+        best = None
+        for L in self.loops(fn):
+            if c.bb in L.body and c.bb != L.header and L.collection is not None and (L.collection is forall or L.collection == forall):
+                if best is None or len(L.body) < len(best.body):
+                    best = L
+        return best
+
+    def _expand_call(self, fn, c, forall, mode, mapping, chain, stack, out):
+        if forall is not None:
+            al = built_alts(self, fn, forall, c.bb, self._loop_of(fn, c, forall))
+            if al is not None:
+                key = _iters.loop_key(forall)
+                for elem, fa, filtered in al:
+                    if filtered and mode == 'must':
+                        continue
+                    m = dict(mapping)
+                    m['__repl__'] = list(mapping.get('__repl__', ())) + [(key, self.subst(elem, mapping))]
+                    self._expand_call1(fn, c, fa, mode, m, chain, stack, out)
+                return
+            if opaque_built(self.slicer, fn, self._loop_of(fn, c, forall)):
+                # fail closed: the library reads `vec![a]` + `push(b)` + `swap_remove(0)` as the array [a]; what is in there
+                # when it is iterated is unknown — for MAY (anything) and for MUST (nothing definite)
+                m = dict(mapping)
+                m['__repl__'] = list(mapping.get('__repl__', ())) + [(_iters.loop_key(forall), UNKNOWN_ELEM)]
+                self._expand_call1(fn, c, None, mode, m, chain, stack, out)
+                return
+        Effects._expand_call(self, fn, c, forall, mode, mapping, chain, stack, out)
+
     # -- per-element effects of a pop ---------------------------------------------------------------------------------
     def _pop_effects(self, wl, pop, site_bb, mapping, chain, stack):
         """effects (in entry terms, still naming the popped element) that happen for the element popped by `pop` on every
@@ -1375,6 +1427,10 @@ def reader_report(prog, sl, E, reader, m, LP):
     for st in E.sites(reader):
         v = E._site_value(reader, st, m)
         kind = option_kind(norm(sl, v)) if v is not None else None
+        if kind is None and v is not None:
+            # `Ok(Some(x))` written as the last combinator of a chain (`parse(..).map_err(E).map(|m| Some(..))`): the site
+            # succeeds exactly when the chain is Ok, and then returns its success payload
+            kind = option_kind(norm(sl, ('unwrap', v)))
         tag = 'bb%d' % st.bb
         if kind is None:
             res.append(('site-shape', 'unproven', where, 'success site %s of the layer reader returns a value that is neither None nor Some(..): %s'
@@ -1420,29 +1476,6 @@ def reader_report(prog, sl, E, reader, m, LP):
     if not n_some:
         res.append(('toml-exists', 'unproven', where, 'the layer reader has no success site returning Some(..)'))
     return res
-
-
-def lossless_read(prog, base):
-    """(True|False|None, message) — is the value `base` (a call reading a TOML file) deserialised as a type that can hold every
-    metadata table?"""
-    if not (isinstance(base, tuple) and len(base) == 4 and base[0] == 'call' and isinstance(base[3], tuple) and len(base[3]) == 2):
-        return None, 'not a call'
-    fn = prog.fns.get(base[3][0])
-    c = fn.call_at(base[3][1]) if fn is not None else None
-    if c is None or not c.ga:
-        return None, 'type of the value read is unknown'
-    ty = c.ga[0]
-    head = 'libcnb_data::layer_content_metadata::LayerContentMetadata'
-    if ty == head:
-        return True, 'read as LayerContentMetadata<GenericMetadata>'
-    if ty.startswith(head + '<') and ty.endswith('>'):
-        arg = ty[len(head) + 1:-1]
-        if arg in ANY_TOML:
-            return True, 'read as LayerContentMetadata<%s>' % arg
-        return False, 'metadata is re-read as %s: keys that type does not model are dropped from a layer reported as restored' % arg
-    if ty in ANY_TOML:
-        return True, 'read as ' + ty
-    return None, 'read as ' + ty
 
 
 def unroll_recursion(E, effs):
@@ -1505,3 +1538,571 @@ def nested_follow_stats(prog, sl, effs, classify, E=None):
                         'a dangling link ends the removal early while the layer is reported empty'
                         % (e.call.name, vstr(e.path)[:80], e.via())))
     return out
+
+
+# ---- round 4: the value read from a file, in normal form ---------------------------------------------------------------
+_TOML_SOURCE_DOC = """"The value read from <file>" is not one library function: `read_toml_file(p)`, a private `read_generic(p)` that
+spells out `fs::read_to_string` + `toml::from_str` and maps the two errors by hand, or the two calls written in place all
+have the same success payload in normal form (private helpers transparent, `?` / match-on-Ok / combinators reduced):
+
+        unwrap(toml::from_str(unwrap(fs::read_to_string(P))))
+
+`toml_source` recognises exactly that — nothing between the bytes of the file and the deserialised value, so a helper that
+reads as one type and converts to another is *not* such a value — and gives the file P and the type the value has where
+it enters the function that uses it (the Ok payload of the outermost call's result type, in the caller's generics)."""
+TOML_PARSE = ('toml::from_str', 'toml::de::from_str')
+FILE_READ_TEXT = ('std::fs::read_to_string',)
+
+
+def _peel_unwrap(v):
+    while isinstance(v, tuple) and len(v) == 2 and v[0] == 'unwrap' and isinstance(v[1], tuple):
+        v = v[1]
+    return v
+
+
+def _type_args(ty):
+    """top-level generic arguments of a printed type `Head<A, B<C, D>>` -> (Head, [A, B<C, D>])"""
+    i = ty.find('<')
+    if i < 0 or not ty.endswith('>'):
+        return ty, []
+    head, body = ty[:i], ty[i + 1:-1]
+    args, depth, cur = [], 0, ''
+    for ch in body:
+        if ch in '<([':
+            depth += 1
+        elif ch in '>)]':
+            depth -= 1
+        if ch == ',' and depth == 0:
+            args.append(cur.strip())
+            cur = ''
+        else:
+            cur += ch
+    if cur.strip():
+        args.append(cur.strip())
+    return head, args
+
+
+def ok_payload_type(ty):
+    """the type of the success payload of a (possibly nested) Result / Option type"""
+    while isinstance(ty, str):
+        head, args = _type_args(ty)
+        if head in STD_ENUMS and args:
+            ty = args[0]
+        else:
+            break
+    return ty
+
+
+def _outer_site_call(prog, v):
+    """the Call that produced the value v, looking through unwraps and Ok-preserving combinators"""
+    for _ in range(12):
+        v = _peel(v)
+        if not (isinstance(v, tuple) and len(v) == 4 and v[0] == 'call'):
+            return None
+        if isinstance(v[3], tuple) and len(v[3]) == 2 and not (v[1] in OK_PRESERVING):
+            fn = prog.fns.get(v[3][0])
+            return fn.call_at(v[3][1]) if fn is not None else None
+        if v[1] in OK_PRESERVING and v[2]:
+            v = v[2][0]
+            continue
+        return None
+    return None
+
+
+def toml_source(prog, sl, base):
+    """(path value P, type the value is read as | None) when the success payload of `base` is, in normal form, the parsed
+    text of file P and nothing else; None otherwise"""
+    if not isinstance(base, tuple) or not base:
+        return None
+    v = _peel_unwrap(norm(sl, ('unwrap', sl.inline_deep(base))))
+    if not (isinstance(v, tuple) and len(v) == 4 and v[0] == 'call' and v[1] in TOML_PARSE and len(v[2]) == 1):
+        return None
+    src = _peel_unwrap(v[2][0])
+    if not (isinstance(src, tuple) and len(src) == 4 and src[0] == 'call' and src[1] in FILE_READ_TEXT and len(src[2]) == 1):
+        return None
+    oc = _outer_site_call(prog, base)
+    ty = ok_payload_type(oc.dty) if oc is not None and oc.dty else None
+    return src[2][0], ty
+
+
+def lossless_type(ty):
+    """(True|False|None, message) — can a value of type `ty` hold every metadata table of a content-metadata file?"""
+    if not ty:
+        return None, 'type of the value read is unknown'
+    head = 'libcnb_data::layer_content_metadata::LayerContentMetadata'
+    if ty == head:
+        return True, 'read as LayerContentMetadata<GenericMetadata>'
+    if ty.startswith(head + '<') and ty.endswith('>'):
+        arg = ty[len(head) + 1:-1]
+        if arg in ANY_TOML:
+            return True, 'read as LayerContentMetadata<%s>' % arg
+        return False, 'metadata is re-read as %s: keys that type does not model are dropped from a layer reported as restored' % arg
+    if ty in ANY_TOML:
+        return True, 'read as ' + ty
+    return None, 'read as ' + ty
+
+
+# ---- round 4: collections built in place ("plan, then execute") -------------------------------------------------------
+_BUILT_DOC = """`for f in FORMATS { remove(path(f)) }`, a loop over `FORMATS.iter().map(path).collect::<Vec<_>>()` and a loop over
+
+        let mut v = Vec::new();  v.push(toml);  v.extend(FORMATS.iter().map(path));  for f in FORMATS { v.push(path(f)) }
+
+visit the same elements.  The iterator algebra (lib/iters.alts) reads the first two; the value slicer does not follow what
+is pushed into a local Vec (`vec![a]` followed by `push(b)` is, to it, the array `[a]`), so the third is read here.  A
+*built collection* is a local Vec / VecDeque that
+
+  faithful     has one definition in the function and is only ever touched through element-adding calls (push / push_back /
+               insert / extend / extend_from_slice), order-only or read-only calls (len, is_empty, reserve, sort, reverse,
+               iter, as_slice, deref) and the call that consumes it (into_iter / iter) — every borrow of it is followed to
+               its use; anything else (pop, remove, clear, retain, truncate, drain, a `&mut` handed on) disqualifies it
+  elements     = the elements it is created with (none for Vec::new / with_capacity, otherwise what the library reads from
+               its initial value), and for every adding call q, relative to the block `at` of the consuming effect:
+                   q dominates `at`, outside loops                         one definite element (or the elements of the
+                                                                           iterator handed to extend)
+                   q inside a loop that runs to exhaustion before `at`     one element per element of that loop's collection
+                   and is passed by every iteration                        (the loop element substituted)
+                   anything else (conditional push)                        possible elements only: `filtered` — they count
+                                                                           for MAY (confinement), never for MUST
+
+`built_alts` substitutes each element source for the collection inside the iterated expression (`once(x)` for a pushed x, the
+iterator itself for extend) and lets the library decompose the result, so adapters between the collection and the loop
+(`v.iter().map(f)`) apply to every element; the alternatives have the (element, forall, filtered) form of iters.alts and
+Effects2 expands a call inside `for x in v` once per element exactly as the library does for literal tables."""
+from .lib import iters as _iters
+from .lib.guards import edge_dominates as _edge_dominates
+
+BV_ADD = {'push': 1, 'push_back': 1, 'push_front': 1, 'insert': 2}
+BV_ADD_MANY = {'extend': 1, 'extend_from_slice': 1}
+BV_NEUTRAL = ('len', 'is_empty', 'capacity', 'reserve', 'reserve_exact', 'shrink_to_fit', 'sort', 'sort_unstable', 'reverse',
+              'iter', 'as_slice', 'first', 'last', 'get', 'contains', 'into_iter', 'dedup', 'rotate_left', 'rotate_right', 'swap')
+BV_CONSUME_DECL = ('std::iter::IntoIterator::into_iter',)
+BV_EXTEND_DECL = ('std::iter::Extend::extend',)
+BV_TYPES = ('std::vec::Vec<', 'std::collections::VecDeque<', 'std::collections::vec_deque::VecDeque<')
+
+
+class BuiltVec:
+    def __init__(self, fn, local):
+        self.fn = fn
+        self.local = local
+        self.site = None      # creation call site when created empty
+        self.init = None      # initial value otherwise
+        self.adds = []        # (Call, index of the element / iterator argument, many?)
+        self.faithful = False
+        self.mutated_unknown = False
+
+    def _scan(self, sl):
+        """True when faithful; the adding calls that were seen are recorded either way (`opaque`: elements are added in
+        place but the collection cannot be read — whoever iterates it may see anything)"""
+        fn = self.fn
+        if not _single_def(fn, self.local):
+            return False
+        d = fn.whole_defs(self.local)[0]
+        if d[0] == 'call' and wl_role(d[3]) == 'create':
+            self.site = (fn.path, d[3].bb)
+        ok = True
+        derived, work = {}, [(self.local, False)]
+
+        def fail(via_mut):
+            # a use that is not understood; through a `&mut` it may add or remove elements
+            if via_mut:
+                self.mutated_unknown = True
+            return False
+        while work:
+            t, tm = work.pop()
+            if t in derived and (derived[t] or not tm):
+                continue
+            derived[t] = tm or derived.get(t, False)
+            if not _single_def(fn, t):
+                ok = fail(tm)
+                continue
+            for bi, kind, idx, how, pl in fn.uses_of(t):
+                if kind == 'drop':
+                    continue
+                if any(p != '*' for p in pl[1:]):
+                    ok = fail(tm or t == self.local)
+                    continue
+                if kind == 'stmt':
+                    st = fn.blocks[bi]['s'][idx]
+                    if how not in ('ref', 'refmut', 'c', 'm', 'cfd') or len(st[1]) != 1 or st[1][0] == 0:
+                        ok = fail(tm or how == 'refmut')
+                        continue
+                    work.append((st[1][0], tm or how == 'refmut'))
+                elif kind == 'arg':
+                    c = fn.call_at(bi)
+                    if c is None or c.indirect or idx != 0:
+                        ok = fail(tm)
+                        continue
+                    n = c.name or ''
+                    last = n.rsplit('::', 1)[-1]
+                    owned = n.startswith(WL_OWNERS)
+                    if owned and last in BV_ADD and len(c.args) == BV_ADD[last] + 1:
+                        self.adds.append((c, BV_ADD[last], False))
+                    elif ((owned and last in BV_ADD_MANY) or c.decl in BV_EXTEND_DECL) and len(c.args) == 2:
+                        self.adds.append((c, 1, True))
+                    elif c.decl in BV_CONSUME_DECL or (owned and last in BV_NEUTRAL):
+                        continue
+                    elif _is_view(c) and c.dest and len(c.dest) == 1 and c.dest[0] != 0:
+                        work.append((c.dest[0], tm))
+                    else:
+                        ok = fail(tm)
+                else:
+                    ok = fail(tm)
+        if self.site is None and self.adds:
+            self.init = sl.local(fn, self.local)
+        self.faithful = ok
+        return ok
+
+
+def built_vecs(sl, fn):
+    """{local: BuiltVec} of the faithful built collections of fn"""
+    c = _cache(sl)
+    key = ('built', fn.path)
+    if key not in c:
+        out = {}
+        for x in range(fn.argc + 1, len(fn.locals)):
+            if not (fn.local_ty(x) or '').startswith(BV_TYPES):
+                continue
+            bv = BuiltVec(fn, x)
+            bv._scan(sl)
+            if bv.adds or bv.mutated_unknown:
+                out[x] = bv
+        c[key] = out
+    return {x: bv for x, bv in c[key].items() if bv.faithful and bv.adds}
+
+
+def opaque_built(sl, fn, loop):
+    """the loop iterates a local collection that has elements added in place but cannot be read as a built collection"""
+    if loop is None or not loop.next_call.args:
+        return False
+    built_vecs(sl, fn)
+    every = _cache(sl)[('built', fn.path)]
+    pl = _op_place(loop.next_call.args[0])
+    for _ in range(16):
+        if pl is None or any(p != '*' for p in pl[1:]):
+            return False
+        x = pl[0]
+        if x in every:
+            return True
+        defs = fn.whole_defs(x)
+        if len(defs) != 1 or fn.partial_defs(x):
+            return False
+        d = defs[0]
+        if d[0] == 'stmt' and d[3]['r'] in ('use', 'cast'):
+            pl = _op_place(d[3]['o'])
+        elif d[0] == 'stmt' and d[3]['r'] == 'ref':
+            pl = d[3]['p']
+        elif d[0] == 'call' and not d[3].indirect and d[3].args:
+            pl = _op_place(d[3].args[0])      # any call: an adapter over the collection still yields its elements
+        else:
+            return False
+    return False
+
+
+UNKNOWN_ELEM = ('unknown', 'element of a collection built in place')
+
+
+def _root_built(sl, fn, pl):
+    """the built collection the iterator in place pl iterates: followed through moves, borrows and element-preserving views"""
+    built = built_vecs(sl, fn)
+    for _ in range(16):
+        if pl is None or any(p != '*' for p in pl[1:]):
+            return None
+        x = pl[0]
+        if x in built:
+            return built[x]
+        defs = fn.whole_defs(x)
+        if len(defs) != 1 or fn.partial_defs(x):
+            return None
+        d = defs[0]
+        if d[0] == 'stmt':
+            rv = d[3]
+            if rv['r'] in ('use', 'cast'):
+                pl = _op_place(rv['o'])
+            elif rv['r'] == 'ref':
+                pl = rv['p']
+            else:
+                return None
+        elif d[0] == 'call':
+            c = d[3]
+            n = c.name or ''
+            ok = (not c.indirect and c.args and (c.decl in BV_CONSUME_DECL or _is_view(c) or c.decl in _iters.SAME or
+                                                 (n.startswith(WL_OWNERS) and n.rsplit('::', 1)[-1] in ('iter', 'iter_mut', 'into_iter'))))
+            if not ok:
+                return None
+            pl = _op_place(c.args[0])
+        else:
+            return None
+    return None
+
+
+def _replace_node(v, pred, new):
+    """v with every sub-value satisfying pred replaced by new; (value, number of replacements)"""
+    n = [0]
+
+    def go(x):
+        if not isinstance(x, tuple) or not x:
+            return x
+        if pred(x):
+            n[0] += 1
+            return new
+        if isinstance(x[0], str) and x[0] in LEAF:
+            return x
+        out = tuple(go(y) if isinstance(y, tuple) else y for y in x)
+        return x if out == x else out
+    return go(v), n[0]
+
+
+def _once(x):
+    return ('call', 'std::iter::once', (x,), None)
+
+
+def _bv_in_value(sl, fn, coll):
+    built = built_vecs(sl, fn)
+    sites = {bv.site: bv for bv in built.values() if bv.site is not None}
+    for x in walk(coll):
+        if isinstance(x, tuple) and len(x) == 4 and x[0] == 'call' and x[3] in sites:
+            return sites[x[3]]
+    return None
+
+
+def built_alts(E, fn, coll, at_bb, loop=None, depth=0):
+    """[(element, forall, filtered)] of the iterated expression `coll` of fn, used in block at_bb, when it iterates a built
+    collection (found in the value by its creation site, or through the receiver of the loop's `next`); None when it does
+    not (the library's alts apply)"""
+    prog, sl = E.prog, E.slicer
+    if coll is None or depth > 3:
+        return None
+    bv = _bv_in_value(sl, fn, coll)
+    if bv is None and loop is not None and loop.next_call.args:
+        bv = _root_built(sl, fn, _op_place(loop.next_call.args[0]))
+    if bv is None:
+        return None
+    if bv.site is not None:
+        pred = lambda x: isinstance(x, tuple) and len(x) == 4 and x[0] == 'call' and x[3] == bv.site
+        sources = []
+    else:
+        ci = canon(bv.init)
+        pred = lambda x: isinstance(x, tuple) and x and x[0] == bv.init[0] and canon(x) == ci
+        sources = [(bv.init, None, False, None)]
+    if _replace_node(coll, pred, ('unknown', 'probe'))[1] != 1:
+        return None         # the collection is not (exactly once) what is iterated here
+    for q, ai, many in bv.adds:
+        if at_bb not in fn.reachable(q.bb):
+            continue      # added on a path that never reaches the use
+        x = sl.operand(fn, q.args[ai])
+        loops = [L for L in E.loops(fn) if q.bb in L.body and q.bb != L.header and L.collection is not None]
+        if loops:
+            if len(loops) > 1 or any(at_bb in L.body for L in loops):
+                return None     # nested loops / a push inside the consuming loop: not a plan-then-execute shape
+            L = loops[0]
+            definite = (getattr(L, 'exhaust', None) is not None and _edge_dominates(fn, L.exhaust[0], L.exhaust[1], at_bb)
+                        and all(fn.dominates(q.bb, l) or q.bb == l for l in L.latches))
+            la = built_alts(E, fn, L.collection, q.bb, L, depth + 1)
+            if la is None:
+                la = _iters.alts(sl, L.collection)
+            key = _iters.loop_key(L.collection)
+            for e2, f2, fl2 in la:
+                xv = _subst_value(x, {'__repl__': [(key, e2)]}, sl)
+                sources.append((xv if many else _once(xv), f2, _iters._fl(fl2, not definite), q))
+        else:
+            sources.append((x if many else _once(x), None, not fn.dominates(q.bb, at_bb), q))
+    out = []
+    for src, fa, fl, q in sources:
+        v2 = _replace_node(coll, pred, src)[0] if src is not bv.init else coll
+        inner = built_alts(E, fn, v2, q.bb if q is not None else at_bb, None, depth + 1) if _bv_in_value(sl, fn, v2) is not None else None
+        if inner is None:
+            inner = _iters.alts(sl, v2)
+        for e, f, fl2 in inner:
+            if fa is not None and f is not None:
+                return None     # a collection per element of another collection: two quantifiers, not expressible
+            out.append((e, f if f is not None else fa, _iters._fl(fl, fl2)))
+    return out
+
+
+# ---- round 4: decisions carried as data ---------------------------------------------------------------------------------
+_DATA_DECISION_DOC = """`match callback()? { Delete => { delete(); create() } Keep => rewrite() }` and
+
+        let plan = callback().map(|a| match a { Delete => Plan::Recreate(c), Keep => Plan::Keep(c) })?;  execute(plan)
+        fn execute(p) { match p { Plan::Create(c) => create(), Plan::Recreate(c) => { delete(); create() } Plan::Keep(c) => rewrite() } }
+
+take the same decisions: the private enum is a *name* for the callback's answer.  `refine_outcomes` reads the second
+spelling as the first, from the outcomes' own path conditions:
+
+  literal    a test `x is V` whose substituted subject is a literal of another variant (`execute(Plan::Create(..))` inside the
+             Recreate arm) is contradicted: the outcome does not exist
+  table      a test `x is V` whose subject is a table over another value s — ('select', s, E, rows), every row a literal of x's
+             enum — *is* the test `s in {row names whose literal has variant V}`: that derived decision on s is added to the
+             outcome (no such row: the outcome does not exist), located where the private enum is matched
+  reduce     under the decisions of an outcome every table over a decided subject reduces to its row, in the returned value,
+             in later subjects and in the effects' paths and arguments (`(plan as Recreate).0` becomes the cause)
+
+A derived decision also remembers where the answer came into existence (`early`: the return of the callback whose result s
+is) — obligations of the form "X must happen after the decision" use the place of the match (the later point: whatever is
+found after it is after the decision), obligations "nothing but X may happen after the decision" use `region_wide`, which
+starts at the earlier point."""
+
+
+def _facts_key(s):
+    # the value itself, with call-site identities: the same expression evaluated at two sites (a re-read after a write) is
+    # two values, and `x` / `unwrap(x)` are two values as well
+    return s
+
+
+def _reduce_selects(sl, v, facts):
+    """v with every table over a decided subject reduced to its row, re-normalised"""
+    if not facts or not isinstance(v, tuple) or not v:
+        return v
+    hit = [False]
+
+    def go(x):
+        if not isinstance(x, tuple) or not x:
+            return x
+        if isinstance(x[0], str) and x[0] in LEAF:
+            return x
+        if x[0] == 'select' and len(x) == 4 and isinstance(x[1], tuple) and isinstance(x[3], tuple):
+            f = facts.get(_facts_key(x[1]))
+            if f is not None and f[0] == x[2]:
+                rows = [val for names, val in x[3] if set(names) & f[1]]
+                if len(rows) == 1:
+                    hit[0] = True
+                    return go(rows[0])
+        out = tuple(go(y) if isinstance(y, tuple) else y for y in x)
+        return x if out == x else out
+    r = go(v)
+    return norm(sl, r) if hit[0] else v
+
+
+def _table_test(cd, s):
+    """(select subject, its enum, names) when `s is cd.outcome` is a test on the subject of the table s; None when s is not a
+    table of literals of cd.enum; names may be empty (contradiction)"""
+    t = s
+    if not (isinstance(t, tuple) and len(t) == 4 and t[0] == 'select' and isinstance(t[2], str) and t[2] != 'str'):
+        return None
+    names = set()
+    for row_names, val in t[3]:
+        pv = val
+        if not (isinstance(pv, tuple) and len(pv) == 4 and pv[0] == 'agg' and pv[1] == cd.enum and pv[2] is not None):
+            return None
+        if pv[2] in cd.outcome:
+            names |= set(row_names)
+    return t[1], t[2], frozenset(names)
+
+
+def _flag_test(cd, s):
+    """(select subject, its enum, names) when the tested boolean s is a table of boolean literals over another value"""
+    t = s
+    if not (isinstance(t, tuple) and len(t) == 4 and t[0] == 'select' and isinstance(t[2], str) and t[2] != 'str'):
+        return None
+    names = set()
+    for row_names, val in t[3]:
+        pv = val
+        if not (isinstance(pv, tuple) and len(pv) == 2 and pv[0] == 'const' and isinstance(pv[1], bool)):
+            return None
+        if pv[1] == cd.outcome:
+            names |= set(row_names)
+    return t[1], t[2], frozenset(names)
+
+
+def _early_anchor(prog, o, s, outcome, enum):
+    """(Cond, frame) at the return of the call whose result the decided value s is, when that call is one of the outcome's
+    effects (the definition's callback)"""
+    sites = [x[3] for x in walk(s) if isinstance(x, tuple) and len(x) == 4 and x[0] == 'call' and isinstance(x[3], tuple) and len(x[3]) == 2]
+    for site in sites:
+        for e in o.must + o.may:
+            if e.call is None or e.level is None or (e.call.fn.path, e.call.bb) != site:
+                continue
+            fn = o._fn(e.level)
+            c = fn.call_at(e.level_bb)
+            if c is None or c.target is None:
+                continue
+            return Cond(fn, e.level_bb, c.target, 'variant', outcome, s, s, enum), e.level
+    return None
+
+
+def _copy_eff(sl, e, facts):
+    np = _reduce_selects(sl, e.path, facts) if e.path is not None else None
+    na = tuple(_reduce_selects(sl, a, facts) for a in e.args) if e.args is not None else None
+    if np is e.path and (na is None or all(x is y for x, y in zip(na, e.args))):
+        return e
+    ne = Eff(e.kind, np, e.call, e.chain, e.must, e.forall, na)
+    ne.level, ne.level_bb, ne.mapping, ne.implied = e.level, e.level_bb, e.mapping, e.implied
+    return ne
+
+
+def refine_outcomes(prog, sl, outs):
+    """outcomes with decisions carried as data made explicit (see _DATA_DECISION_DOC); contradicted outcomes are dropped"""
+    res = []
+    for o in outs:
+        facts, conds, feasible, derived = {}, [], True, False
+
+        def learn(s, enum, names):
+            k = _facts_key(s)
+            old = facts.get(k)
+            if old is not None and old[0] == enum:
+                names = frozenset(names) & old[1]
+            facts[k] = (enum, frozenset(names))
+            return bool(names)
+        for cd, subj, fr in o.conds:
+            if cd.kind == 'bool' and isinstance(cd.outcome, bool) and subj is not None:
+                # the same for a decision carried as a flag: `let wipe = match a { Delete => true, Keep => false }; if wipe ..`
+                s = _reduce_selects(sl, subj, facts)
+                t = s
+                if isinstance(t, tuple) and len(t) == 2 and t[0] == 'const' and isinstance(t[1], bool):
+                    if t[1] != cd.outcome:
+                        feasible = False
+                        break
+                    conds.append((cd, s, fr))
+                    continue
+                tt = _flag_test(cd, s)
+                conds.append((cd, s, fr))
+                if tt is not None:
+                    s2, enum2, names = tt
+                    if not learn(s2, enum2, names):
+                        feasible = False
+                        break
+                    names = facts[_facts_key(s2)][1]
+                    dc = Cond(cd.fn, cd.sw_bb, cd.target, 'variant', names, s2, s2, enum2)
+                    dc.early = _early_anchor(prog, o, s2, names, enum2)
+                    dc.derived_from = cd
+                    conds.append((dc, s2, fr))
+                    derived = True
+                continue
+            if cd.kind != 'variant' or not isinstance(cd.outcome, frozenset) or subj is None:
+                conds.append((cd, subj, fr))
+                continue
+            s = _reduce_selects(sl, subj, facts)
+            if decided(sl, cd, s) is False:
+                feasible = False
+                break
+            conds.append((cd, s, fr))
+            if cd.enum == 'std::ops::ControlFlow':
+                continue
+            tt = _table_test(cd, s)
+            if tt is not None:
+                s2, enum2, names = tt
+                if not learn(s2, enum2, names):
+                    feasible = False
+                    break
+                names = facts[_facts_key(s2)][1]
+                dc = Cond(cd.fn, cd.sw_bb, cd.target, 'variant', names, s2, s2, enum2)
+                dc.early = _early_anchor(prog, o, s2, names, enum2)
+                dc.derived_from = cd
+                conds.append((dc, s2, fr))
+                derived = True
+            elif not learn(s, cd.enum, cd.outcome):
+                feasible = False
+                break
+        if not feasible:
+            continue
+        if not derived:
+            if any(a is not b for (_, a, _), (_, b, _) in zip(conds, o.conds)):
+                o.conds = conds
+            res.append(o)
+            continue
+        value = _reduce_selects(sl, o.value, facts)
+        conds = [(cd, _reduce_selects(sl, s, facts) if s is not None else s, fr) for cd, s, fr in conds]
+        must = [_copy_eff(sl, e, facts) for e in o.must]
+        ids = {id(a): b for a, b in zip(o.must, must)}
+        may = [ids.get(id(e)) or _copy_eff(sl, e, facts) for e in o.may]
+        res.append(Outcome2(o.prog, o.entry, value, must, may, conds, o.sites))
+    return res
